@@ -895,6 +895,11 @@ func (e *Ex) runScenario() core.Result {
 				if res.StatusCode != 200 {
 					continue
 				}
+				if it.kind == "cmitm" && e.conn["quiet"] == "1" && idx == len(e.ids)-1 {
+					// the client goes silent after the tunnel is up and hangs up: no byte follows the 200
+					alive = false
+					continue
+				}
 				if it.kind == "cmitm" && it.s("tls", "1") == "1" {
 					tc := tls.Client(&bufConn{Conn: cc.c, r: cc.br}, &tls.Config{RootCAs: caPool, ServerName: "127.0.0.1"})
 					tc.SetDeadline(time.Now().Add(ioTimeout))
@@ -1188,7 +1193,7 @@ func (e *Ex) report(open bool, left int, probeID string) core.Result {
 	}
 	impl := strings.Join(parts, " | ") + fmt.Sprintf(" | open=%s ctxleft=%d distinct=%s", b01(open), left, b01(distinct))
 	// keep-alive clause of C01: decided from the script alone
-	wantOpen := true
+	wantOpen := e.conn["quiet"] != "1"
 	for _, id := range e.ids {
 		it := w.items[id]
 		r := w.rec(id)
